@@ -264,20 +264,26 @@ func createUniqueJobs(left, right IndividualNodes, options *IndividualNodesCompa
 			// Ideally we should not get multiple individuals returned. That
 			// would mean that multiple individuals share the same unique
 			// identifier. All we can do in this case is to pick the first
-			// one.
-			if len(bs) > 0 {
+			// one that has not been matched with another individual already
+			// (an individual must never be matched twice).
+			for _, b := range bs {
+				if _, ok := options.sentB.LoadOrStore(b.Pointer(), nil); ok {
+					continue
+				}
+
 				options.adjustTotal(totals)
-				ss := a.SurroundingSimilarity(bs[0], options.SimilarityOptions, true)
+				ss := a.SurroundingSimilarity(b, options.SimilarityOptions, true)
 
 				jobs <- &IndividualComparison{
 					Left:         a,
-					Right:        bs[0],
+					Right:        b,
 					Similarity:   ss,
 					certainMatch: true,
 				}
 
 				options.sentA.Store(a.Pointer(), nil)
-				options.sentB.Store(bs[0].Pointer(), nil)
+
+				break
 			}
 		}
 	})
